@@ -610,12 +610,18 @@ def _build_ensemble(case):
     inputs, rhos = [], []
     for i, s in enumerate(case["states"]):
         seed = case["seed"] * 64 + i  # one drawn seed, one independent stream per state (equal states never by accident)
+        # every fourth complex ensemble starts with a real-valued, real-dtype state (dtype decided per ensemble member)
+        real = case["real"] or (i == 0 and case["seed"] % 4 == 0)
         if s["kind"] == "dm":
             rho = gen.rand_density(seed, d, s["rank"], real)
+            if real:
+                rho = np.array(np.real(rho), dtype=float)
             inputs.append(rho)
             rhos.append(rho)
         else:
             v = gen.rand_ket(seed, d, real)
+            if real:
+                v = np.array(np.real(v), dtype=float)
             inputs.append(v if s["kind"] == "ket1d" else v.reshape(-1, 1))
             rhos.append(np.outer(v, v.conj()))
     n = len(rhos)
